@@ -36,6 +36,9 @@ CLASSES = {
     "bad-stop-colour": ("an invalid stop-color in a gradient", VECTOR),
     "bad-spread": ("an unknown spreadMethod", VECTOR),
     "palette-conflict": ("two colours declared for one palette index", ["glyf_colr_1", "glyf_colr_0"]),
+    # in COLRv0 alpha lives in the palette entry: the same RGB at two opacities are two colours for one index
+    "palette-conflict-alpha": ("one palette index declared with the same RGB at two opacities (COLRv0)", ["glyf_colr_0"]),
+    "palette-conflict-two-glyphs": ("two colours declared for one palette index, in two different sources", ["glyf_colr_1", "glyf_colr_0"]),
     "no-codepoints": ("a file name without codepoints", ALL5),
     "bitmap-too-big": ("bitmap side > 255 in a cbdt build", ["cbdt"]),
 }
@@ -67,6 +70,10 @@ def defective(cls):
         return [(None, svg(SHAPE.format(f="url(#g)"), defs='<linearGradient id="g" spreadMethod="mirror"><stop offset="0" stop-color="red"/><stop offset="1" stop-color="blue"/></linearGradient>'))]
     if cls == "palette-conflict":
         return [(None, svg(SHAPE.format(f="var(--color1, red)") + '<path d="M30,30 L60,30 L60,60 Z" fill="var(--color1, blue)"/>'))]
+    if cls == "palette-conflict-alpha":
+        return [(None, svg(SHAPE.format(f="var(--color1, red)") + '<path d="M30,30 L60,30 L60,60 Z" fill="var(--color1, red)" opacity="0.5"/>'))]
+    if cls == "palette-conflict-two-glyphs":
+        return [("emoji_u{cp}", svg(SHAPE.format(f="var(--color1, red)"))), ("emoji_u{cp}_fe0f", svg(SHAPE.format(f="var(--color1, blue)")))]
     if cls == "no-codepoints":
         return [("logo_xyz", good(2))]
     if cls == "bitmap-too-big":
@@ -235,7 +242,7 @@ def run(report, tier, only=None):
                     cases.append({"kind": "inproc", "cls": cls, "fmt": fmt, "idx": idx})
         listing.run(report, cases, execute, timeout=120)
     report.rule = (
-        "fault enumeration: 16 defect classes x position of the defective source among 0-2 valid ones (quick: alone + the three positions among two "
+        "fault enumeration: 18 defect classes x position of the defective source among 0-2 valid ones (quick: alone + the three positions among two "
         "valid; thorough: all six) x the colour-format families the class applies to (content defects also with --noclip_to_viewbox), on the real `nanoemoji` command in a fresh directory "
         "(must exit non-zero and leave no Font.ttf); two multi-master defect classes x master order; six classes in-process x all applicable formats "
         "of the 13; distinct = class x format"
